@@ -64,10 +64,14 @@ instance {ε α : Type} [DecidableEq ε] [DecidableEq α] : DecidableEq (Except 
 /-- variable bindings, innermost first (`List.lookup` = the visible binding) -/
 abbrev Env := List (Nat × Seq)
 
-/-- named functions that may be referenced as `name#1` -/
+/-- named functions that may be referenced as `name#n` or written as a static partial application
+`name(?, …)` -/
 inductive Builtin where
-  | abs | count | sum | reverse | head | tail | exists_ | empty_
+  | abs | count | sum | reverse | head | tail | exists_ | empty_ | remove | insertBefore
   deriving DecidableEq, Repr, Inhabited
+
+def Builtin.arity : Builtin → Nat
+  | .remove => 2 | .insertBefore => 3 | _ => 1
 
 /-- the expression fragment.  `fnE tok ps body`: inline function expression number `tok` of the
 program (its syntax token), `call f args` dynamic call with `none` = the placeholder `?`,
@@ -85,6 +89,7 @@ inductive Expr where
   | fnE (tok : Nat) (ps : List Nat) (body : Expr)
   | named (b : Builtin)
   | call (f : Expr) (args : List (Option Expr))
+  | spart (b : Builtin) (args : List (Option Expr))
   | par (e : Expr)
   | smap (a b : Expr)
   | forEach (s f : Expr) | filter (s f : Expr)
@@ -163,7 +168,7 @@ def ebv : Seq → Except Err Bool
     | none => .error .FORG0006
   | _ => .error .FORG0006
 
-def Builtin.ap : Builtin → Seq → Except Err Seq
+def Builtin.ap1 : Builtin → Seq → Except Err Seq
   | .abs, [] => .ok []
   | .abs, [x] => match numOf x with
     | some v => .ok [mkNum (if v.1 < 0 then -v.1 else v.1) v.2]
@@ -183,6 +188,24 @@ def Builtin.ap : Builtin → Seq → Except Err Seq
   | .tail, s => .ok (s.drop 1)
   | .exists_, s => .ok [.bool !s.isEmpty]
   | .empty_, s => .ok [.bool s.isEmpty]
+  | _, _ => .error .XPTY0004
+
+/-- `$position as xs:integer`: exactly one integer -/
+def posArg : Seq → Except Err Int
+  | [.int p] => .ok p
+  | _ => .error .XPTY0004
+
+/-- a named function on its argument list (F&O 14.1.? fn:remove, fn:insert-before; the unary ones above) -/
+def Builtin.ap : Builtin → List Seq → Except Err Seq
+  | .remove, [s, p] => (posArg p).map fun p =>
+      if p < 1 then s else s.take (p.toNat - 1) ++ s.drop p.toNat
+  | .insertBefore, [s, p, ins] => (posArg p).map fun p =>
+      let k := if p < 1 then 0 else p.toNat - 1
+      s.take k ++ ins ++ s.drop k
+  | .remove, _ => .error .XPTY0004
+  | .insertBefore, _ => .error .XPTY0004
+  | b, [s] => b.ap1 s
+  | _, _ => .error .XPTY0004
 
 /-! ### partial application patterns -/
 
@@ -245,7 +268,7 @@ abbrev SHeap := List SObj
 /-- number of arguments a function item expects -/
 def SObj.arity (o : SObj) : Nat := match o.fixed with
   | some pat => holes pat
-  | none => match o.code with | .inline ps _ => ps.length | .builtin _ => 1
+  | none => match o.code with | .inline ps _ => ps.length | .builtin b => b.arity
 
 /-- state (heap) + exception -/
 @[reducible] def SM (α : Type) := SHeap → Except Err (α × SHeap)
@@ -370,9 +393,7 @@ def specCall (a : Nat) (args : List Seq) : SM Seq := do
     | some pat => if args.length = holes pat then pure (fill pat args) else SM.throw .XPTY0004
   match o.code with
   | .builtin b =>
-    match full with
-    | [s] => SM.lift (b.ap s)
-    | _ => SM.throw .XPTY0004
+    if full.length = b.arity then SM.lift (b.ap full) else SM.throw .XPTY0004
   | .inline ps body =>
     if full.length = ps.length then
       ev body { lex := ps.zip full ++ o.lex, item := none }
@@ -413,10 +434,17 @@ def specFunArgN (c : SCtx) (f : Expr) (n : Nat) : SM Nat := do
   let o ← SM.getObj a
   if o.arity = n then pure a else SM.throw .XPTY0004
 
+/-- arithmetic: the left operand is evaluated and checked first; when it is the empty sequence the
+result is `()` and the right operand is not evaluated (XPath 2.3.4 allows it; the order of the
+implementation is taken, see the header) -/
 def specArith (op : AOp) (a b : Expr) (c : SCtx) : SM Seq := do
   let x ← ev a c
-  let y ← ev b c
-  SM.lift (arith op x y)
+  match arithOperand x with
+  | .error e => SM.throw e
+  | .ok none => pure []
+  | .ok (some _) => do
+    let y ← ev b c
+    SM.lift (arith op x y)
 
 def specCompare (op : COp) (a b : Expr) (c : SCtx) : SM Seq := do
   let x ← ev a c
@@ -489,6 +517,13 @@ def specStep (e : Expr) (c : SCtx) : SM Seq :=
     else do
       let vals ← specList ev c (args.filterMap id)
       specCall ev a vals
+  | .spart b args =>
+    -- static partial application `name(?, v, …)` of a named function
+    if args.length = b.arity then do
+      let vals ← specArgs ev c args
+      let n ← SM.alloc { code := .builtin b, lex := [], fixed := some vals }
+      pure [.fn n]
+    else SM.throw .XPTY0004
   | .par e => ev e c
   | .smap a b => do
     let xs ← ev a c
